@@ -57,14 +57,14 @@ def run_history(ctx: Ctx, rng, idx: int, steps: int, iters: bool, stream: str):
         msg = heapsim.oracle_c01(w)
         if msg:
             ctx.violation("after this history the views no longer describe one tree: " + msg,
-                          case={"kinds": kinds, "ops": ops, "parsed": parsed}, observed=msg, stream=stream)
+                          case={"kinds": kinds, "ops": ops, "parsed": parsed, "twin": getattr(w, "twin_choices", None)}, observed=msg, stream=stream)
             break
     for k, v in stats.items():
         ctx.count(k, v)
         if k in ("arg:same-parent", "arg:elsewhere", "arg:soup", "arg:repeat") and v:
             nontrivial = True
     line = f"c01 run {kinds} {';'.join(ops) if ops else '-'} {'all' if iters else 'ptr'}"
-    return line, real_dumps, {"kinds": kinds, "ops": ops, "parsed": parsed}, soups, nontrivial
+    return line, real_dumps, {"kinds": kinds, "ops": ops, "parsed": parsed, "twin": getattr(w, "twin_choices", None)}, soups, nontrivial
 
 
 def compare(ctx: Ctx, reply: str, real_dumps, case, soups, iters, stream):
@@ -143,7 +143,7 @@ def replay(path):
     import random
     from bs4 import BeautifulSoup
     # rebuild the start: API objects, then the recorded ops (a parsed start is rebuilt by its appends)
-    w = heapsim.World(c["kinds"])
+    w = heapsim.World(c["kinds"], twin_choices=c.get("twin"))
     for i, op in enumerate(c["ops"]):
         st = w.apply(op)
         msg = heapsim.oracle_c01(w) if st == "ok" else None
